@@ -664,7 +664,10 @@ func canonicalUnicodeCatName(catName string) (string, bool) {
 
 	normalized := normalizeUnicodeCategoryAlias(catName)
 	if canonical, ok := unicodeSupportedPropertyAliases[normalized]; ok {
-		return canonical, true
+		// an enumerated property (Word_Break, ...) names a table only together with a value
+		if _, ok := unicodeCategories[canonical]; ok {
+			return canonical, true
+		}
 	}
 	if canonical, ok := unicodeBarePropertyValueAliases[normalized]; ok {
 		return canonical, true
